@@ -5,6 +5,8 @@
 pub mod sym;
 pub mod env;
 pub mod c18;
+pub mod c03;
+pub mod c05;
 
 #[cfg(all(test, not(kani)))]
 mod replay_entry {
@@ -16,6 +18,11 @@ mod replay_entry {
         match name.as_str() {
             "c18::increment_is_strict" => crate::c18::increment_is_strict(),
             "c18::two_increments" => crate::c18::two_increments(),
+            "c03::accepted_extends_chain" => crate::c03::accepted_extends_chain(),
+            "c03::extending_operation_accepted" => crate::c03::extending_operation_accepted(),
+            "c03::accepted_is_above_stored_height" => crate::c03::accepted_is_above_stored_height(),
+            "c05::pruned_prefix_never_returns" => crate::c05::pruned_prefix_never_returns(),
+            "c05::newer_prune_point_accepted" => crate::c05::newer_prune_point_accepted(),
             other => panic!("unknown harness {other}"),
         }
         println!("REPLAY-DONE");
